@@ -343,6 +343,31 @@ def gen_spike(rng):
             "cluster straddles the coordinate axes" if where <= 1 else "cluster away from the axes"], pts, tol
 
 
+def gen_very_long(rng):
+    """Thousands of vertices (a densely sampled arc / spiral / noisy trend line, as a plotted curve or a
+    digitised drawing is): anything that works through a long list in blocks, windows or with a size
+    threshold meets its seams here."""
+    n = rng.choice((4097, 4098, 5000, 8193, 9000, 12000, 20000))
+    style = rng.randrange(3)
+    pts = []
+    if style == 0:
+        r = rng.uniform(50, 500)
+        span = rng.uniform(1.0, 6.0)
+        pts = [[r * math.cos(span * i / n), r * math.sin(span * i / n)] for i in range(n)]
+        sag = r * (1 - math.cos(span / n * 8))          # deviation of ~16 samples from their chord
+    elif style == 1:
+        pts = [[(5 + 0.002 * i) * math.cos(0.01 * i), (5 + 0.002 * i) * math.sin(0.01 * i)] for i in range(n)]
+        sag = 5 * (1 - math.cos(0.08))
+    else:
+        y = 0.0
+        for i in range(n):
+            y += rng.gauss(0.002, 0.01)
+            pts.append([i * 0.05, y + 3 * math.sin(i / 700.0)])
+        sag = 0.03
+    tol = sag * rng.choice((0.5, 1.0, 2.0, 4.0))
+    return ["very long path (4097..20000 vertices)", "tolerance comparable to the deviations"], pts, tol
+
+
 def gen_path(rng):
     if rng.random() < 0.05:
         return gen_long_chord(rng)
@@ -460,7 +485,8 @@ def run(ctx):
     install(ctx)
     rng = ctx.rng
     n = ctx.budget(5_000, 90_000)
-    for _ in range(n):
+    every = max(1, n // ctx.budget(10, 20))      # a fixed number of very long paths, spread over the run
+    for _i in range(n):
         if not ctx.alive():
             break
         if rng.random() < 0.03:
@@ -470,7 +496,7 @@ def run(ctx):
             from ..gen_stepper import failed_call
             failed_call(rng, rng.choice((plot_utils_mod().supersample, plot_utils_mod().points_in_tolerance)), 2)
             ctx.tag("history: after a failed call (malformed arguments)")
-        classes, pts, tol = gen_path(rng)
+        classes, pts, tol = gen_very_long(rng) if _i % every == every // 2 else gen_path(rng)
         ln = len(pts)
         classes.append("len=%s" % (str(ln) if ln <= 3 else "4..30" if ln <= 30 else ">30"))
         ctx.case(classes, (tuple(map(tuple, pts)), tol), nontrivial=ln >= 3 and tol > 0)
@@ -516,6 +542,7 @@ def run(ctx):
                 "outcome:some vertices deleted", "outcome:nothing deleted"):
         ctx.need(cls, 50)
     ctx.need("spike about one tolerance long, path doubles back (distance to the chord END decides)", 200)
+    ctx.need("very long path (4097..20000 vertices)", 8)
     ctx.need("cluster straddles the coordinate axes", 150)
     ctx.need("cluster away from the axes", 150)
     ctx.need("monitor:supersample evaluated", 3_000)
